@@ -23,7 +23,11 @@ PID = "C13"
 EPS = ("decision", "envoy", "proxy")
 KF_HOST = "C13-headers-host-entry"
 KF_FIRST = "C13-first-header-value"
+KF_RAW = "C13-envoy-raw-path-octets"
 KF_TEXT = {
+    KF_RAW: "for a path with octets that may not stand in a path (\" < > ^ ` { | } \\ non-ASCII) the raw path shown by "
+            "the Envoy gRPC service keeps the octets, that of the decision and proxy services has them percent-encoded "
+            "(decoded path, captures and decision agree)",
     KF_HOST: "Request.Headers() of the decision and proxy services contains a `Host` entry, that of the Envoy gRPC "
              "service does not (Header(\"Host\") agrees everywhere)",
     KF_FIRST: "a header added for the upstream more than once reaches the upstream side of the decision and proxy "
@@ -123,11 +127,12 @@ def upstream_diff(ep, ua, us, single_valued, viol, hits):
         viol.append((ep, "upstream.headers", ha, hs))
 
 
-def spec_diff(i, m):
+def spec_diff(case, i, m):
     """(violations, known-finding hits): where the implementation departs from the reference semantics.
     Only for well-formed logical requests. A departure that has exactly the signature of one of the two known findings
     is a hit, anything else a violation."""
     viol, hits = [], []
+    wire_path = case["req"]["path"]
     spec = m.get("spec") if isinstance(m, dict) else None
     ci = canon_impl(i)
     if not spec or not spec.get("wellformed") or not isinstance(ci, dict) or "load" in ci:
@@ -150,6 +155,12 @@ def spec_diff(i, m):
         if (sa is None) != (ss is None):
             viol.append((ep, "view", sa, ss))
         elif sa is not None:
+            if ep == "envoy" and not spec.get("covered") and sa.get("rawpath") != ss.get("rawpath") and \
+                    sa.get("rawpath") == wire_path and sa.get("path") == ss.get("path"):
+                # known finding: the raw path as received instead of the received spelling with the forbidden octets
+                # encoded — for a request outside `covered` (such octets in the path) and nothing else
+                hits.append(KF_RAW)
+                sa = dict(sa, rawpath=ss.get("rawpath"))
             view_diff(ep, sa, ss, viol, hits)
         ua, us = a.get("up"), s.get("up")
         if (ua is None) != (us is None):
@@ -186,7 +197,26 @@ def body_diff(case, i):
     return bad or None
 
 
+def impl_variant():
+    """which of the proved variants of the model the tree is compared with: the Envoy request context of /repo keeps
+    octets that may not stand in a path in the raw path (`Impl.fixed`, known finding C13-envoy-raw-path-octets); once
+    the proposed fixes/C13-6 is applied — recorded under `fixed` in known_findings.json — it encodes them
+    (`Impl.next`)"""
+    if os.environ.get("VERIF_C13_IMPL") in ("fixed", "next"):      # for trying fixes/C13-6 in a scratch worktree
+        return os.environ["VERIF_C13_IMPL"]
+    fixed = " ".join(str(x) for x in vlib.known_findings().get("fixed", []))
+    return "next" if "C13-6" in fixed or KF_RAW in fixed else "fixed"
+
+
+def url_known(u, covered, hits):
+    """part of the known finding C13-envoy-raw-path-octets: with a raw path that is not in valid encoding
+    `URL.String()` re-derives the spelling from the decoded path — at the Envoy service only"""
+    return (not covered) and KF_RAW in hits and u.get("decision") == u.get("proxy", u.get("decision"))
+
+
 def one(exe, case):
+    case = dict(case)
+    case.setdefault("impl", impl_variant())
     i = vlib.run_cases([exe], [case])[0]
     if suspicious(i):
         i = vlib.run_cases([exe], [case])[0]
@@ -327,10 +357,11 @@ def shrink(case, fails, max_runs=400):
 # ---------------------------------------------------------------------------------------------------------------
 
 def budget(R):
+    """cases: covered by the theorems / well-formed with octets that may not stand in a path / outside the hypotheses"""
     cpus = os.cpu_count() or 4
     if R.tier == "quick":
-        return 2600, 400, min(4, cpus)
-    return 48000, 6000, min(8, cpus)
+        return 2300, 450, 300, min(4, cpus)
+    return 42000, 7000, 5000, min(8, cpus)
 
 
 def features(case):
@@ -378,7 +409,8 @@ def describe(v):
 def original_note(exe, case):
     """does the implementation behave like the unpatched code on this case?"""
     c = dict(case, impl="original")
-    i, m = one(exe, c)
+    i = vlib.run_cases([exe], [c])[0]
+    m = vlib.run_cases(vlib.driver_cmd(), [c])[0]
     if not model_diff(i, m):
         return (" [the implementation behaves exactly like the model of the code WITHOUT the patches "
                 "fixes/C13-1 … C13-5 on this input — they are not applied to this tree]")
@@ -397,16 +429,19 @@ def run(R):
                     {"lean_log": R.lean["log"]}, no_input=True)
         return
     corpus = vlib.load_corpus(PID)
-    n_wf, n_nwf, workers = budget(R)
+    n_wf, n_raw, n_nwf, workers = budget(R)
+    variant = impl_variant()
     gen = [gen_entryview.gen_case(R.rng) for _ in range(n_wf)]
+    gen_raw = [gen_entryview.gen_case(R.rng, raw=True) for _ in range(n_raw)]
     gen_nwf = [gen_entryview.gen_case(R.rng, wellformed=False) for _ in range(n_nwf)]
-    cases = corpus + gen + gen_nwf
+    cases = [dict(c, impl=variant) for c in corpus + gen + gen_raw + gen_nwf]
     impl = run_parallel([exe], cases, workers)
     n_rerun = rerun_suspicious(exe, cases, impl)
     model = run_parallel(vlib.driver_cmd(), cases, workers)
 
     bad_model, bad_spec, bad_url, bad_body = [], [], [], []
-    hits = {KF_HOST: 0, KF_FIRST: 0}
+    hits = {KF_HOST: 0, KF_FIRST: 0, KF_RAW: 0}
+    n_covered = 0
     decs, feats = {}, {}
     nontriv = set()
     n_wellformed = n_rejected = 0
@@ -415,15 +450,18 @@ def run(R):
         d = model_diff(i, m)
         if d:
             bad_model.append((c, i, m, d))
-        v, h = spec_diff(i, m)
+        v, h = spec_diff(c, i, m)
         if v:
             bad_spec.append((c, i, m, v))
         for k in h:
             hits[k] += 1
+        covered = wellformed and bool(m["spec"].get("covered"))
+        n_covered += covered
         if wellformed:
             n_wellformed += 1
-            if url_diff(i):
-                bad_url.append((c, i, m, url_diff(i)))
+            u = url_diff(i)
+            if u and not url_known(u, covered, h):
+                bad_url.append((c, i, m, u))
             if body_diff(c, i):
                 bad_body.append((c, i, m, body_diff(c, i)))
         rm = vlib.res_of(m)
@@ -456,7 +494,8 @@ def run(R):
                 "and the request has a feature in which the carriers differ (escape in the path, query, repeated or "
                 "non-canonical header name, cookie line, body); distinct by hash of rules + request",
         "entry_point_runs": 3 * len(cases), "corpus_cases": len(corpus), "generated_wellformed": n_wf,
-        "generated_outside_hypotheses": n_nwf, "wellformed_by_spec": n_wellformed, "rejected_at_load": n_rejected,
+        "generated_wellformed_with_forbidden_path_octets": n_raw, "model_variant": "Impl." + variant,
+        "generated_outside_hypotheses": n_nwf, "wellformed_by_spec": n_wellformed, "covered_by_theorems": n_covered, "rejected_at_load": n_rejected,
         "exhaustive": False,
         "decisions_per_entry_point": dict(sorted(decs.items())),
         "request_features": dict(sorted(feats.items())),
@@ -473,9 +512,11 @@ def run(R):
         "net/http, net/url (parsing of the request line, EscapedPath, cookie parsing are re-modelled and compared), "
         "text/template + sprig, cel-go, goccy/go-json / url.ParseQuery / yaml.v3 (their results on the generated "
         "bodies are supplied by the generator), grpc-go, httputil.ReverseProxy are exercised, not modelled",
-        "hypotheses of the theorems (Spec.wellFormed): path in the encoding net/url keeps as is, header names are "
-        "tokens and none of Host / Forwarded / X-Forwarded-* (removed by the trustedproxy middleware: C09), at most "
-        "one Cookie line; outside them only impl = model is checked",
+        "hypotheses of the theorems (Spec.covered): a path net/http accepts (leading slash, no blank / control octet, "
+        "well-formed escapes; octets that may not stand in a path only for Impl.next, for Impl.fixed they are the "
+        "known finding C13-envoy-raw-path-octets), header names are tokens and none of Host / Forwarded / "
+        "X-Forwarded-* (removed by the trustedproxy middleware: C09), at most one Cookie line; outside them only "
+        "impl = model is checked",
         "no trusted proxies configured; scheme = transport of the listener (TLS or not); client IP addresses are not "
         "part of the logical request",
         "what the upstream application is shown for a header = the client's lines of that name, replaced by the value "
@@ -506,19 +547,25 @@ def run(R):
         ep, what = key
 
         def fails(x, ep=ep, what=what):
-            vv, _ = spec_diff(*one(exe, x))
+            vv, _ = spec_diff(x, *one(exe, x))
             return any(a == ep and b == what for a, b, _, _ in vv)
 
         sc = shrink(c, fails)
         si, sm = one(exe, sc)
-        sv = [x for x in spec_diff(si, sm)[0] if x[0] == ep and x[1] == what] or spec_diff(si, sm)[0] or v
+        sv = [x for x in spec_diff(sc, si, sm)[0] if x[0] == ep and x[1] == what] or spec_diff(sc, si, sm)[0] or v
         R.violation(describe(sv[0]) + original_note(exe, sc),
                     {"case": sc, "impl": canon_impl(si), "model": vlib.res_of(sm),
                      "spec": sm.get("spec") if isinstance(sm, dict) else None, "kind": "impl-vs-spec",
                      "entry_point": ep, "observable": what}, no_input=False)
     if not bad_spec:
         for c, i, m, u in bad_url[:2]:
-            sc = shrink(c, lambda x: url_diff(one(exe, x)[0]) is not None)
+            def url_bad(x):
+                xi, xm = one(exe, x)
+                u = url_diff(xi)
+                cov = isinstance(xm, dict) and bool((xm.get("spec") or {}).get("covered"))
+                return u is not None and not url_known(u, cov, spec_diff(x, xi, xm)[1])
+
+            sc = shrink(c, url_bad)
             si, sm = one(exe, sc)
             R.violation("Request.URL.String() differs between the entry points for one logical request: "
                         + json.dumps(url_diff(si)), {"case": sc, "impl": si, "kind": "impl-vs-impl"}, no_input=False)
@@ -535,11 +582,16 @@ def run(R):
             si, sm = one(exe, sc)
             dd = model_diff(si, sm)
             ci, cm = canon_impl(si), vlib.res_of(sm)
+            hint = ""
+            if variant == "fixed" and not model_diff(si, vlib.run_cases(vlib.driver_cmd(), [dict(sc, impl="next")])[0]):
+                hint = (" [the implementation behaves like Impl.next on this input: fixes/C13-6 seems to be applied — "
+                        "record it under `fixed` in known_findings.json (mentioning C13-6), the check then compares "
+                        "with Impl.next]")
             R.violation("the implementation no longer behaves like the model the C13 theorems are about (no input on "
                         "which the entry points disagree with the reference semantics was found); differing part: "
                         + ", ".join(dd) + " impl "
                         + json.dumps({k: ci.get(k) for k in dd} if isinstance(ci, dict) else ci)[:400] + " model "
-                        + json.dumps({k: cm.get(k) for k in dd} if isinstance(cm, dict) else cm)[:400],
+                        + json.dumps({k: cm.get(k) for k in dd} if isinstance(cm, dict) else cm)[:400] + hint,
                         {"case": sc, "impl": ci, "model": cm, "kind": "impl-vs-model", "stream": "entryview"},
                         no_input=True)
     if not lean_ok:
@@ -562,14 +614,14 @@ def replay(R, path):
     print("spec :", json.dumps(m.get("spec") if isinstance(m, dict) else None))
     R.coverage.update({"obligations": 1, "discharged": 1, "checker_cmd": "replay", "trusted_base": [],
                        "evaluations": 1, "distinct_nontrivial": 0, "samples": [c]})
-    v, h = spec_diff(i, m)
+    v, h = spec_diff(c, i, m)
     for k in h:
         R.known_hits[k] = R.known_hits.get(k, 0) + 1
     if v:
         R.violation(describe(v[0]) + original_note(exe, c),
                     {"case": c, "impl": canon_impl(i), "model": vlib.res_of(m),
                      "spec": m.get("spec") if isinstance(m, dict) else None})
-    elif url_diff(i):
+    elif url_diff(i) and not url_known(url_diff(i), bool((m.get("spec") or {}).get("covered")), h):
         R.violation("Request.URL.String() differs between the entry points: " + json.dumps(url_diff(i)),
                     {"case": c, "impl": i})
     elif body_diff(c, i):
